@@ -123,12 +123,16 @@ def ret_json(ret):
 def py_req(a, capture=True):
     # the recorders have no file descriptor: liveFd = false
     return {'model': 'act', 'op': 'py', 'kwargsRaise': bool(a.get('kwargs_raise')), 'ret': ret_json(a['ret']),
-            'ops': [actlib.op_kind(w) for w in a.get('writes', [])], 'capture': bool(capture), 'liveFd': False}
+            'ops': [actlib.op_kind(w) for w in a.get('writes', [])], 'capture': bool(capture), 'liveFd': False,
+            'interactive': a.get('cls') == 'interactive'}
 
 
 def cmd_req(a, cap):
     expand = a.get('expand', 'ok') != 'ok'
     out, err = ('', '') if expand else actlib.expected_streams(a)
+    if a.get('cls', 'CmdAction') != 'CmdAction':
+        return {'model': 'act', 'op': 'tool', 'cls': a['cls'], 'expandRaises': expand,
+                'interrupt': bool(a.get('interrupt')), 'rc': actlib.expected_rc(a)}
     return {'model': 'act', 'op': 'cmd', 'expandRaises': expand, 'cap': cap_class(cap),
             'saveOut': a.get('save_out'), 'rc': actlib.expected_rc(a), 'out': out, 'err': err}
 
@@ -137,10 +141,14 @@ def requests_for(case):
     k = case['kind']
     if k == 'py':
         cap = case.get('capture', True)
+        if case.get('cls') == 'interactive':
+            cap = False
         return [py_req(case, cap), {'model': 'act', 'op': 'route', 'v': case.get('v'), 'kind': 'py',
                                'cap': cap_class(cap)}]
     if k == 'cmd':
         cap = case.get('capture', True)
+        if case.get('cls', 'CmdAction') != 'CmdAction':
+            cap = False          # the tools classes hand the live streams to Popen whatever io.capture says
         return [cmd_req(case, cap), {'model': 'act', 'op': 'route', 'v': case.get('v'), 'kind': 'cmd',
                                      'cap': cap_class(cap)}]
     if k == 'task':
@@ -256,9 +264,32 @@ def judge(case, obs, model):
         return bad
     if k in ('py', 'cmd'):
         m, route = model
+        tool = case.get('cls') not in (None, 'CmdAction')
+        if k == 'cmd' and not tool and case.get('expand', 'ok') == 'ok' and route['out']['captured'] \
+                and any(actlib.strict_error(case)):
+            # the codec raises in a reader thread (decode_error='strict' on undecodable bytes, utf-16 without BOM):
+            # the thread terminates the process and dies.  Outcome and the other stream depend on a race with the
+            # process's own exit: monitors only -- the text decoded before the error stays captured, the other
+            # stream is a prefix of its text, nothing escapes execute(), the streams are restored.
+            raised = actlib.strict_error(case)
+            for name, data, r in zip(('out', 'err'), actlib.stream_bytes(case), raised):
+                want = actlib.simulate_decode(case, data)[0]
+                if route[name]['captured']:
+                    if r and sum(raised) == 1:
+                        cmp('captured-' + name, 'P', obs[name], want)
+                    else:
+                        # this stream may have been cut short by the other reader terminating the process
+                        full = data.decode(actlib.py_codec(case)[0], 'replace')
+                        if not (isinstance(obs[name], str) and (want.startswith(obs[name]) or full.startswith(obs[name]))):
+                            bad.append(('captured-' + name, 'P', 'observed %s is not a prefix of %s'
+                                        % (clip(obs[name]), clip(full))))
+            if obs['outcome'] not in ('ok', 'failed', 'error'):
+                bad.append(('outcome', 'K', 'decode error path: observed %s' % obs['outcome']))
+            cmp('cell-not-restored', 'P', obs['restored'], [True, True])
+            return bad
         silent = (k == 'py' and (case['ret']['cat'] == 'raisesbase' or case.get('kwargs_raise'))) or \
-                 (k == 'cmd' and (case.get('expand', 'ok') != 'ok' or actlib.expected_rc(case) < 0))
-        if k == 'cmd' and actlib.expected_rc(case) < 0 and obs['outcome'] == 'ok':
+                 (k == 'cmd' and (case.get('expand', 'ok') != 'ok' or actlib.expected_rc(case) < 0)) or tool
+        if k == 'cmd' and not tool and actlib.expected_rc(case) < 0 and obs['outcome'] == 'ok':
             bad.append(('outcome', 'P', 'a process killed by a signal is reported successful'))
         cmp('outcome', 'K' if silent else 'P', obs['outcome'], m['outcome'])
         cmp('result', 'P', obs['result'], m['result'])
@@ -269,8 +300,20 @@ def judge(case, obs, model):
             done = list(zip(case.get('writes', []), m.get('body', {}).get('text', [])))
             tout = ''.join(w[1] for w, txt in done if txt and w[0] == 'o')
             terr = ''.join(w[1] for w, txt in done if txt and w[0] == 'e')
+        elif not route['out']['captured']:
+            # not captured: doit does not decode anything, the bytes go to the live stream / descriptor as they are
+            tout, terr = [d.decode('utf-8', 'replace') for d in actlib.stream_bytes(case)]
         else:
             tout, terr = actlib.expected_streams(case)
+            enc, derr = actlib.py_codec(case)
+            for data, text in zip(actlib.stream_bytes(case), (tout, terr)):
+                # the statement: the decoding of the whole byte stream
+                try:
+                    whole = data.decode(enc, derr)
+                except UnicodeError:
+                    continue          # (command never built: nothing is decoded)
+                if whole != text:
+                    bad.append(('codec-incremental-differs', 'K', 'whole %s vs incremental %s' % (clip(whole), clip(text))))
         if none_ran:
             tout = terr = ''
         capture_on = route['out']['captured']
@@ -481,13 +524,15 @@ def shrink(case, key, drv, max_evals=60):
 def describe(case):
     k = case['kind']
     if k == 'py':
-        return 'py %s/%s cap=%s v=%s kw=%s swap=%s writes=%d' % (
-            case['ret']['cat'], case['ret'].get('rep', ''), case.get('capture', True), case.get('v'),
+        return 'py%s %s/%s cap=%s v=%s kw=%s swap=%s writes=%d' % (
+            ' PythonInteractiveAction' if case.get('cls') == 'interactive' else '', case['ret']['cat'], case['ret'].get('rep', ''), case.get('capture', True), case.get('v'),
             case.get('kwargs_raise'), case.get('swap', 'none'), len(case.get('writes', [])))
     if k == 'cmd':
-        return 'cmd exit=%s cap=%s v=%s save_out=%s chunks=%d expand=%s buffering=%s' % (
+        extra = ' '.join('%s=%s' % (f, case[f]) for f in ('cls', 'interrupt', 'encoding', 'decode_error', 'env', 'cwd',
+                                                           'fmt', 'form', 'world') if case.get(f))
+        return 'cmd exit=%s cap=%s v=%s save_out=%s chunks=%d expand=%s buffering=%s %s' % (
             case.get('exit'), case.get('capture', True), case.get('v'), case.get('save_out'),
-            len(case.get('chunks', [])), case.get('expand', 'ok'), case.get('buffering', 0))
+            len(case.get('chunks', [])), case.get('expand', 'ok'), case.get('buffering', 0), extra)
     if k == 'runner':
         return 'runner %s%s n=%s %s v=%s tasks=%s' % (
             case['par'], (' -r json abort=%s' % case.get('abort')) if case.get('reporter') == 'json' else '',
@@ -565,6 +610,8 @@ def count_case(st, case):
             st.count('py.kwargs_raise')
         if case.get('swap', 'none') != 'none':
             st.count('py.swap')
+        if case.get('cls') == 'interactive':
+            st.count('py.cls:PythonInteractiveAction')
         if case.get('direct'):
             st.count('py.direct' + ('.notask' if case.get('notask') else ''))
         if case.get('repeat', 1) > 1:
@@ -587,6 +634,17 @@ def count_case(st, case):
             st.count('cmd.save_out')
         if case.get('buffering'):
             st.count('cmd.buffering>0')
+        for f in ('encoding', 'decode_error', 'fmt', 'cls'):
+            if case.get(f):
+                st.count('cmd.%s:%s' % (f, case[f]))
+        for f in ('env', 'cwd', 'world', 'interrupt'):
+            if case.get(f):
+                st.count('cmd.' + f)
+        if case.get('form') in ('callable_list', 'callable_magic'):
+            st.count('cmd.form:' + case['form'])
+        if case.get('cls', 'CmdAction') == 'CmdAction' and case.get('expand', 'ok') == 'ok' \
+                and case.get('capture', True) and any(actlib.strict_error(case)):
+            st.count('cmd.monitors_only:decode-error-path')
     elif k == 'task':
         st.count('task.len:%d' % len(case['actions']))
         if case.get('teardown'):
@@ -734,6 +792,9 @@ def gen_py(rng):
         c['v'] = rng.choice([0, 1, 2])
         if c['capture'] is True and rng.random() < 0.3:
             c['notask'] = True
+    elif r < 0.47:
+        c['cls'] = 'interactive'          # doit.tools.PythonInteractiveAction
+        c.pop('repeat', None)
     return c
 
 
@@ -779,7 +840,69 @@ def gen_cmd(rng, big=False):
         c['stream_v'] = rng.choice([0, 1, 2])
     if rng.random() < 0.1 and c['capture'] is True:
         c['buffering'] = rng.choice([1, 2, 3, 5, 7, 64, 1024])
+    if rng.random() < 0.35:
+        gen_cmd_options(rng, c)
     return c
+
+
+def gen_cmd_options(rng, c):
+    """wave 4 (#9, #24): encoding / decode_error / env / cwd / command builders / string-format modes / tools classes.
+    Only called for a share of the cases, so the older case stream keeps its shape."""
+    r = rng.random()
+    if r < 0.3:
+        enc = rng.choice(['latin-1', 'utf-16', 'utf-16-le'])
+        c['encoding'] = enc
+        chunks = []
+        for chan in 'oe':
+            if enc == 'utf-16':
+                chunks.append([chan, {'hex': 'fffe'}])           # a utf-16 *stream* needs its BOM
+            for _ in range(rng.randint(0, 3)):
+                chunks.append([chan, rng.choice([{'enc_text': rng.choice(['héllo\n', 'ç☃\n\nx', 'no newline', '\r\n']), 'enc': enc},
+                                                 {'hex': ''.join(rng.choice(['00', 'd8', 'ff', '0a', '41', 'e9', 'dc'])
+                                                                 for _ in range(rng.randint(1, 7)))}])])
+        rng.shuffle(chunks)
+        # keep every channel's BOM first
+        chunks.sort(key=lambda ch: 0 if ch[1].get('hex') == 'fffe' else 1)
+        c['chunks'] = chunks
+        if rng.random() < 0.3:
+            c['decode_error'] = rng.choice(['strict', 'ignore'])
+    elif r < 0.45:
+        c['decode_error'] = rng.choice(['strict', 'strict', 'ignore'])      # with the generated (often invalid) utf-8 bytes
+    elif r < 0.75:
+        c['world'] = True
+        c['form'] = rng.choice(['str', 'rawstr', 'callable', 'callable_magic', 'callable_magic'])
+        c['fmt'] = rng.choice(['old', 'new', 'both'])
+        c['expand'] = 'ok'
+        extra = []
+        for _ in range(rng.randint(1, 4)):
+            kind = rng.choice(['subst', 'lit', 'magic' if c['form'] == 'callable_magic' else 'subst', 'env'])
+            if kind == 'subst':
+                extra.append([rng.choice('oe'), {'subst': rng.choice(['targets', 'dependencies', 'changed', 'opt1'])}])
+            elif kind == 'magic':
+                extra.append([rng.choice('oe'), {'magic': rng.choice(['targets', 'dependencies', 'changed', 'opt1'])}])
+            elif kind == 'lit':
+                extra.append([rng.choice('oe'), {'lit': rng.choice(['100%', '{}', '{x} %s %%', '%(targets)s?', '}{'])}])
+            else:
+                c['env'] = True
+                extra.append([rng.choice('oe'), {'env': rng.choice(['C17VAR', 'C17EMPTY'])}])
+        c['chunks'] = c['chunks'][:2] + extra
+        rng.shuffle(c['chunks'])
+        if rng.random() < 0.4:
+            c['cwd'] = True
+    elif r < 0.85:
+        c['form'] = 'callable_list'
+        c['expand'] = 'ok'
+        c['cwd'] = rng.random() < 0.5
+        c['env'] = rng.random() < 0.5
+        if c['env']:
+            c['chunks'].append(['o', {'env': 'C17VAR'}])
+    else:
+        c['cls'] = rng.choice(['LongRunning', 'Interactive'])
+        c.pop('buffering', None)
+        c.pop('repeat', None)
+        if rng.random() < 0.25:
+            c['interrupt'] = True
+            c['exit'] = ['status', rng.choice([0, 3])]
 
 
 def gen_runner(rng):
@@ -950,6 +1073,13 @@ def exhaustive_py():
                         if direct:
                             c['direct'] = True
                         out.append(c)
+    for ret in all_rets():
+        for v in (0, 2):
+            out.append({'kind': 'py', 'cls': 'interactive', 'ret': copy.deepcopy(ret), 'writes': writes, 'v': v,
+                        'capture': True})
+    for kw in actlib.KW_REPS[:2]:
+        out.append({'kind': 'py', 'cls': 'interactive', 'ret': {'cat': 'true'}, 'writes': writes, 'v': 0,
+                    'capture': True, 'kwargs_raise': kw})
     for kw in actlib.KW_REPS:
         for cap in CAPTURES:
             for v in VERBS:
@@ -999,6 +1129,37 @@ def exhaustive_cmd(full):
                     'capture': True, 'save_out': None, 'buffering': nbuf})
         out.append({'kind': 'cmd', 'chunks': [['o', {'text': 'x'}], ['o', {'rep': 'c3a9', 'n': 6}]],
                     'exit': ['status', 0], 'v': 0, 'capture': True, 'save_out': None, 'buffering': nbuf})
+    # doit.tools classes: every class x return code class x verbosity (+ interrupted, + command that cannot be built)
+    for cls in ('LongRunning', 'Interactive'):
+        for ex in (['status', 0], ['status', 1], ['status', 125], ['status', 126], ['status', 255], ['signal', 15]):
+            for v in (0, 2):
+                out.append({'kind': 'cmd', 'cls': cls, 'chunks': chunks, 'exit': ex, 'v': v, 'capture': True, 'save_out': 1})
+        for ex in (['status', 0], ['status', 4]):
+            out.append({'kind': 'cmd', 'cls': cls, 'chunks': [], 'exit': ex, 'v': 0, 'interrupt': True})
+        out.append({'kind': 'cmd', 'cls': cls, 'chunks': chunks, 'exit': ['status', 0], 'v': 0, 'expand': 'badkey'})
+    # CmdAction options
+    for enc, bom in (('latin-1', ''), ('utf-16', 'fffe'), ('utf-16-le', '')):
+        for derr in ('replace', 'strict', 'ignore'):
+            for nbuf in (0, 3):
+                ch = [[c, {'hex': bom}] for c in 'oe' if bom] + [['o', {'enc_text': 'héllo\n☃ x', 'enc': enc}],
+                                                                 ['e', {'enc_text': 'é\n', 'enc': enc}], ['o', {'hex': 'e9ff0a00d8'}]]
+                out.append({'kind': 'cmd', 'chunks': ch, 'exit': ['status', 0], 'v': 2, 'capture': True, 'save_out': 2,
+                            'encoding': enc, 'decode_error': derr, 'buffering': nbuf})
+    for derr in ('strict', 'ignore'):
+        for bad_chan in 'oe':
+            out.append({'kind': 'cmd', 'chunks': [['o', {'text': 'fine\n'}], ['e', {'text': 'fine too\n'}],
+                                                  [bad_chan, {'hex': '61ff620a'}], ['o', {'text': 'after\n'}]],
+                        'exit': ['status', 0], 'v': 0, 'capture': True, 'save_out': 1, 'decode_error': derr})
+    for fmt in ('old', 'new', 'both'):
+        for form in ('str', 'rawstr', 'callable', 'callable_magic', 'callable_list', 'list'):
+            ch = [['o', {'text': 'a'}], ['o', {'lit': '100% {x} %s }{'}], ['e', {'env': 'C17VAR'}]]
+            if form in ('str', 'rawstr', 'callable', 'callable_magic'):
+                ch += [['o', {'subst': 'targets'}], ['e', {'subst': 'opt1'}], ['o', {'subst': 'changed'}], ['o', {'subst': 'dependencies'}]]
+            if form == 'callable_magic':
+                ch += [['o', {'magic': 'targets'}], ['e', {'magic': 'changed'}], ['o', {'magic': 'opt1'}], ['o', {'magic': 'dependencies'}]]
+            for cwd in (False, True):
+                out.append({'kind': 'cmd', 'chunks': ch, 'exit': ['status', 0], 'v': 0, 'capture': True, 'save_out': None,
+                            'world': True, 'env': True, 'cwd': cwd, 'fmt': fmt, 'form': form})
     for expand in ('badkey', 'badelem', 'callable_raises'):
         for cap in CAPTURES:
             out.append({'kind': 'cmd', 'chunks': chunks, 'exit': ['status', 0], 'v': 2, 'capture': cap,
